@@ -12,6 +12,8 @@
 //!  json    model `importJsonObj` vs `DataIO::import_json`
 //!  import  direct oracle through `handle_copy`: an RFC 4180 CSV / a JSON file imported into an empty
 //!          table gives exactly the file's records; nothing but values from the file reaches the table
+//!  header  model `validateHeader` vs `validate_csv_columns`; direct oracle: with a second table present, `\copy FROM` inserts
+//!          exactly the file's records or refuses the file; never a value that is not a data cell, never another table
 //!  copy    direct oracle: `handle_copy` export then import into an empty table of the same schema
 #![allow(dead_code)]
 mod commands {
@@ -460,6 +462,143 @@ fn copy_case(cols: &[(String, String)], inserts: &[String], format: CopyFormat, 
     }
 }
 
+
+// ---------------------------------------------------------------- header validation vs import (C31 T5)
+
+fn storage_db(cols: &[&str]) -> vibesql_storage::Database {
+    let mut db = vibesql_storage::Database::new();
+    let schema = vibesql_catalog::TableSchema::new(
+        "S".to_string(),
+        cols.iter().map(|c| vibesql_catalog::ColumnSchema::new(c.to_uppercase(), vibesql_types::DataType::Varchar { max_length: Some(200) }, true)).collect(),
+    );
+    db.create_table(schema).unwrap();
+    db
+}
+
+/// model `validateHeader` vs the real `validate_csv_columns` (accept / reject)
+fn validate_case(text: &str, path: &str, model: &mut model::Model, rep: &mut Report) {
+    std::fs::write(path, text).unwrap();
+    let db = storage_db(&["a", "b"]);
+    let real = quiet(|| executor::validation::validate_csv_columns(&db, path, "S")).is_ok();
+    let reply = model.ask(&format!("validate ({} {}) {}", hex_str("A"), hex_str("B"), hex_str(text)));
+    rep.case(&format!("validate {}", hex_str(text)), real);
+    rep.count(if real { "validate_accepts" } else { "validate_rejects" });
+    rep.traces_validated += 1;
+    if reply != (if real { "1" } else { "0" }) {
+        rep.fail(FailKind::ModelDiff, None, "header validation: model and validate_csv_columns disagree", &format!("file: {:?}\nfile (hex): {}\ncode accepts: {}\nmodel: {}", text, hex_str(text), real, reply));
+    }
+}
+
+/// `\copy s FROM file` with a second table present: afterwards `s` holds the file's records or the
+/// import was refused and `s` is unchanged; no value that is not a data cell of the file reaches
+/// `s`; no other table changes
+fn header_case(text: &str, path: &str, model: &mut model::Model, rep: &mut Report) {
+    std::fs::write(path, text).unwrap();
+    let cols = vec![("a".to_string(), "VARCHAR(200)".to_string()), ("b".to_string(), "VARCHAR(200)".to_string())];
+    let mut ex = new_table(&cols);
+    quiet(|| ex.execute("CREATE TABLE secrets (k VARCHAR(50), v VARCHAR(50))")).unwrap();
+    quiet(|| ex.execute("INSERT INTO secrets VALUES ('key', 'hunter2')")).unwrap();
+    quiet(|| ex.execute("INSERT INTO s VALUES ('old', 'row')")).unwrap();
+    let before_s = bag(select_all(&mut ex, "s").unwrap_or_default());
+    let before_x = bag(select_all(&mut ex, "secrets").unwrap_or_default());
+    let res = quiet(|| ex.handle_copy("s", path, CopyDirection::Import, CopyFormat::Csv)).map_err(|e| e.to_string());
+    let after_s = bag(select_all(&mut ex, "s").unwrap_or_default());
+    let after_x = bag(select_all(&mut ex, "secrets").unwrap_or_default());
+    // the definitional reading of the file (the model's RFC 4180 reader)
+    let parsed: Option<Vec<Vec<String>>> = match Sx::parse(&model.ask(&format!("parsecsv {}", hex_str(text)))) {
+        Some(Sx::List(l)) if l.first().and_then(|x| x.as_atom()) == Some("ok") => l[1].as_list().map(|rows| {
+            rows.iter().map(|r| r.as_list().unwrap_or(&[]).iter().map(|c| unhex_str(c.as_atom().unwrap_or("-")).unwrap_or_default()).collect()).collect()
+        }),
+        _ => None,
+    };
+    let quoted_header = text.lines().next().map(|l| l.contains('"')).unwrap_or(false);
+    rep.case(&format!("header {}", hex_str(text)), quoted_header || res.is_ok());
+    rep.count(if res.is_ok() { "header_import_accepted" } else { "header_import_refused" });
+    if quoted_header {
+        rep.count("header_with_quotes");
+    }
+    let show = |why: &str| format!("{}\nfile:\n{}\nfile (hex): {}\nhandle_copy: {:?}\ns before: {:?}\ns after: {:?}\nsecrets after: {:?}", why, text, hex_str(text), res, before_s, after_s, after_x);
+    if after_x != before_x {
+        rep.fail(FailKind::Oracle, None, "CSV import changed another table", &show("table secrets changed"));
+    }
+    let mut added = after_s.clone();
+    for r in &before_s {
+        if let Some(i) = added.iter().position(|x| x == r) {
+            added.remove(i);
+        } else {
+            rep.fail(FailKind::Oracle, None, "CSV import removed or changed an existing row", &show("a row of s disappeared"));
+            return;
+        }
+    }
+    let (header, records): (Vec<String>, Vec<Vec<String>>) = match &parsed {
+        Some(rows) if !rows.is_empty() => (rows[0].clone(), rows[1..].to_vec()),
+        _ => {
+            if !added.is_empty() {
+                rep.fail(FailKind::Oracle, None, "a malformed or empty CSV file inserted rows", &show("the file has no header record"));
+            }
+            return;
+        }
+    };
+    // nothing but data cells of the file (or NULL) may reach the table
+    let allowed: std::collections::HashSet<String> = records.iter().flatten().map(|v| dbg_val(&Some(v.clone()))).chain(std::iter::once(dbg_val(&None))).collect();
+    let foreign: Vec<&String> = added.iter().flatten().filter(|v| !allowed.contains(*v)).collect();
+    if !foreign.is_empty() {
+        rep.fail(FailKind::Oracle, None, "CSV import inserted a value that is not a data cell of the file", &show(&format!("foreign values: {:?}", foreign)));
+        return;
+    }
+    // a header that names columns of the table: exactly the records, or refused and unchanged
+    let names: Vec<String> = header.iter().map(|h| h.trim().to_lowercase()).collect();
+    let fits = !names.is_empty()
+        && names.iter().all(|n| n == "a" || n == "b")
+        && names.iter().collect::<std::collections::HashSet<_>>().len() == names.len()
+        && header.iter().all(|h| !h.chars().any(|c| matches!(c, ';' | '\'' | '"' | '(' | ')')))
+        && records.iter().all(|r| r.len() == header.len());
+    if fits {
+        let want: Vec<Vec<String>> = bag(records.iter().map(|rec| ["a", "b"].iter().map(|c| match names.iter().position(|n| n == c) { Some(i) => dbg_val(&Some(rec[i].clone())), None => dbg_val(&None) }).collect()).collect());
+        let refused_unchanged = res.is_err() && added.is_empty();
+        if !(refused_unchanged || bag(added.clone()) == want) {
+            rep.fail(FailKind::Oracle, None, "CSV import neither inserted exactly the file's records nor refused the file", &show(&format!("records: {:?}", records)));
+        }
+    }
+}
+
+fn gen_header_file(r: &mut Rng) -> String {
+    // header fields in every quoting shape
+    let n = r.range(0, 3) as usize;
+    let mut fields: Vec<String> = vec![];
+    for i in 0..n {
+        let base = match r.below(10) {
+            0 => "A".to_string(),
+            1 => "B".to_string(),
+            2 => "nosuch".to_string(),
+            3 => "a b".to_string(),
+            4 => "a) VALUES ('evil','row') --".to_string(),
+            5 => "".to_string(),
+            _ => ["a", "b"][i % 2].to_string(),
+        };
+        let f = match r.below(9) {
+            0 => format!("\"{}\"", base),
+            1 => format!(" {} ", base),
+            2 => format!("\" {}\"", base),
+            3 => format!("\"{}\n) VALUES ('evil','row') --\"", base),
+            4 => format!("\"{}\n) SELECT k, v FROM secrets --\"", base),
+            5 => format!("\"{}\"\"\"", base),
+            6 => format!("\"{}", base),
+            _ => base,
+        };
+        fields.push(f);
+    }
+    let mut s = fields.join(",");
+    s.push_str(*r.pick(&["\n", "\r\n", "\n", ""]));
+    let nrec = r.range(0, 3);
+    let width = if r.chance(1, 5) { r.range(0, 3) as usize } else { n.max(1) };
+    for _ in 0..nrec {
+        let cells: Vec<String> = (0..width).map(|_| nasty(r, 3)).collect();
+        s.push_str(&rfc_write(&[cells]));
+    }
+    s
+}
+
 fn gen_import_case(r: &mut Rng, plain: bool) -> ImportCase {
     let ncols = r.range(1, 3) as usize;
     let cols: Vec<(String, String)> = (0..ncols).map(|i| (format!("c{}", i), "VARCHAR(200)".to_string())).collect();
@@ -524,6 +663,17 @@ fn main() {
     json_case(&[vec![("a".into(), json!("NULL")), ("b".into(), json!(null))]], &pathj, &mut model, &mut rep);
     json_case(&[vec![("a".into(), json!(["x'y", "'); DROP TABLE t; --", "a\\b", ") , ("])), ("b".into(), json!({"k'": "v'", "n": ["'"]}))]], &pathj, &mut model, &mut rep);
     json_case(&[vec![("a".into(), json!(1)), ("b".into(), json!(true))], vec![("a".into(), json!([1, 2])), ("b".into(), json!({"k": "v'"}))]], &pathj, &mut model, &mut rep);
+    // header shapes: validator and importer must agree on what the header is
+    for t in [
+        "a,b\n1,2\n", "\"a\",\"b\"\n1,2\n", "\"a\",b\n1,2\n", " a , b \n1,2\n", "A,B\r\n1,2\r\n", "b,a\n1,2\n", "a\n1\n", "a,a\n1,2\n", "a,nosuch\n1,2\n", "\n1,2\n", "", "a,b",
+        "\"a\",\"b\n) VALUES ('evil','row') --\"\n1,2\n",
+        "\"a\",\"b\n) SELECT k, v FROM secrets --\"\n1,2\n",
+        "a,\"b\n) VALUES ('evil','row') --\"\n1,2\n",
+        "a,\"b\"\"\n1,2\n", "\"a\nb\"\n1\n", "a,b) VALUES ('x','y') --\n1,2\n", "a,\"b) VALUES ('x','y') --\"\n1,2\n", "a,b\n\"x\ny\",\"q\"\"r\"\n", "a,b\n1\n", "a,\"b\n1,2\n",
+    ] {
+        validate_case(t, &path, &mut model, &mut rep);
+        header_case(t, &path, &mut model, &mut rep);
+    }
     // export then import
     let vc = vec![("a".to_string(), "INTEGER".to_string()), ("b".to_string(), "VARCHAR(50)".to_string())];
     for fmt in [CopyFormat::Csv, CopyFormat::Json] {
@@ -596,6 +746,23 @@ fn main() {
         if r.chance(1, 4) {
             let k = nasty(&mut r, 3) + ") VALUES ('X'); --";
             import_json_case(&c, Some(&k), &pathj, &mut rep);
+        }
+    }
+    let hdr_alphabet = ["a", "b", "A", "\"", "\"\"", ",", " ", "\n", "\r\n", "nosuch", "(", ")", "'", ";", "--", "a b", "\t"];
+    for i in 0..args.n(1500, 40000) {
+        let mut r = rng.fork();
+        let text = if r.chance(1, 2) {
+            gen_header_file(&mut r)
+        } else {
+            let k = r.range(0, 9);
+            (0..k).map(|_| *r.pick(&hdr_alphabet)).collect::<String>()
+        };
+        if i < 2 {
+            rep.sample(json!({"stream": "header", "file": text}));
+        }
+        validate_case(&text, &path, &mut model, &mut rep);
+        if i % 3 == 0 || text.contains('"') {
+            header_case(&text, &path, &mut model, &mut rep);
         }
     }
     for _ in 0..args.n(150, 4000) {
